@@ -239,6 +239,124 @@ func lockedInitErrShutsInner(fd *ast.FuncDecl) bool {
 	return found > 0 && found == good
 }
 
+// resultChanQueuedInReadOrder: in the reading loop of streamReader, a fresh one-slot channel `out := make(chan …, 1)` is sent on
+// `preprocessed` and only afterwards handed to `go s.preprocess(blk, out)`, all in the same loop body (so in read order).
+func resultChanQueuedInReadOrder(fd *ast.FuncDecl) bool {
+	if fd == nil {
+		return false
+	}
+	ok := false
+	ast.Inspect(fd.Body, func(n ast.Node) bool {
+		fs, isFor := n.(*ast.ForStmt)
+		if !isFor {
+			return true
+		}
+		made, sent, spawnedAfter := "", false, false
+		for _, st := range fs.Body.List {
+			switch v := st.(type) {
+			case *ast.AssignStmt:
+				if len(v.Lhs) == 1 && len(v.Rhs) == 1 {
+					if c, isC := v.Rhs[0].(*ast.CallExpr); isC && exprName(c.Fun) == "make" && len(c.Args) == 2 {
+						if _, isChan := c.Args[0].(*ast.ChanType); isChan {
+							if bl, isLit := c.Args[1].(*ast.BasicLit); isLit && bl.Value == "1" {
+								made = exprName(v.Lhs[0])
+							}
+						}
+					}
+				}
+			case *ast.SelectStmt:
+				ast.Inspect(v, func(x ast.Node) bool {
+					if snd, isS := x.(*ast.SendStmt); isS && made != "" && exprName(snd.Chan) == "preprocessed" && exprName(snd.Value) == made {
+						sent = true
+					}
+					return true
+				})
+			case *ast.SendStmt:
+				if made != "" && exprName(v.Chan) == "preprocessed" && exprName(v.Value) == made {
+					sent = true
+				}
+			case *ast.GoStmt:
+				if strings.HasSuffix(exprName(v.Call.Fun), ".preprocess") && len(v.Call.Args) == 2 && exprName(v.Call.Args[1]) == made && sent {
+					spawnedAfter = true
+				}
+			}
+		}
+		if made != "" && sent && spawnedAfter {
+			ok = true
+		}
+		return true
+	})
+	return ok
+}
+
+// forwarderSequential: the goroutine started in streamReader receives a channel from `preprocessed`, then receives from that channel,
+// then sends what it got on the file's `blocks` channel — nested in this order, with no other send on `blocks` in the function.
+func forwarderSequential(fd *ast.FuncDecl) bool {
+	if fd == nil {
+		return false
+	}
+	ok := false
+	sends := 0
+	ast.Inspect(fd.Body, func(n ast.Node) bool {
+		if s, isS := n.(*ast.SendStmt); isS && strings.HasSuffix(exprName(s.Chan), ".blocks") {
+			sends++
+		}
+		gs, isGo := n.(*ast.GoStmt)
+		if !isGo {
+			return true
+		}
+		fl, isLit := gs.Call.Fun.(*ast.FuncLit)
+		if !isLit {
+			return true
+		}
+		// find: case X, _ := <-preprocessed: … case Y := <-X: … case ….blocks <- Y
+		ast.Inspect(fl.Body, func(x ast.Node) bool {
+			cc, isCC := x.(*ast.CommClause)
+			if !isCC || cc.Comm == nil {
+				return true
+			}
+			as, isAs := cc.Comm.(*ast.AssignStmt)
+			if !isAs || len(as.Rhs) != 1 {
+				return true
+			}
+			ue, isUE := as.Rhs[0].(*ast.UnaryExpr)
+			if !isUE || exprName(ue.X) != "preprocessed" || len(as.Lhs) == 0 {
+				return true
+			}
+			chanVar := exprName(as.Lhs[0])
+			for _, st := range cc.Body {
+				ast.Inspect(st, func(y ast.Node) bool {
+					cc2, isCC2 := y.(*ast.CommClause)
+					if !isCC2 || cc2.Comm == nil {
+						return true
+					}
+					as2, isAs2 := cc2.Comm.(*ast.AssignStmt)
+					if !isAs2 || len(as2.Rhs) != 1 || len(as2.Lhs) == 0 {
+						return true
+					}
+					ue2, isUE2 := as2.Rhs[0].(*ast.UnaryExpr)
+					if !isUE2 || exprName(ue2.X) != chanVar {
+						return true
+					}
+					val := exprName(as2.Lhs[0])
+					for _, st2 := range cc2.Body {
+						ast.Inspect(st2, func(z ast.Node) bool {
+							if snd, isS := z.(*ast.SendStmt); isS && strings.HasSuffix(exprName(snd.Chan), ".blocks") && exprName(snd.Value) == val {
+								ok = true
+							}
+							return true
+						})
+					}
+					return true
+				})
+			}
+			return true
+		})
+		return true
+	})
+	return ok && sends == 1
+}
+
 // guardedAppend: is `h.subscribers = append(...)` in fd preceded (same block) by a Lock() call on a mutex field?
 func guardedAppend(fd *ast.FuncDecl, target string) bool {
 	if fd == nil {
@@ -400,6 +518,8 @@ func main() {
 		"fileStreamCap":      chanCap(fsrc.method("", "NewFileSource"), "incomingBlocksFile"),
 		"runSelectsTerminating": fmt.Sprint(runSelectsTerminating(fsrc.method("FileSource", "run"))),
 		"readErrShutdownBeforeClose": fmt.Sprint(shutdownBeforeClose(fsrc.method("FileSource", "streamReader"))),
+		"resultChanQueuedInReadOrder": fmt.Sprint(resultChanQueuedInReadOrder(fsrc.method("FileSource", "streamReader"))),
+		"forwarderSequential":         fmt.Sprint(forwarderSequential(fsrc.method("FileSource", "streamReader"))),
 	}
 	js, _ := json.MarshalIndent(facts, "", " ")
 	os.WriteFile(os.Args[3], js, 0644)
@@ -436,8 +556,8 @@ func main() {
 	if cap == "unknown" {
 		cap = "0"
 	}
-	fmt.Fprintf(&b, "def fileSrc : FileSrcFacts := { fileStreamCap := %s, runSelectsTerminating := %s, readErrShutdownBeforeClose := %s }\n",
-		cap, facts["runSelectsTerminating"], facts["readErrShutdownBeforeClose"])
+	fmt.Fprintf(&b, "def fileSrc : FileSrcFacts := { fileStreamCap := %s, runSelectsTerminating := %s, readErrShutdownBeforeClose := %s, resultChanQueuedInReadOrder := %s, forwarderSequential := %s }\n",
+		cap, facts["runSelectsTerminating"], facts["readErrShutdownBeforeClose"], facts["resultChanQueuedInReadOrder"], facts["forwarderSequential"])
 	b.WriteString("\nend BstreamVerif.Facts\n")
 	os.WriteFile(os.Args[2], []byte(b.String()), 0644)
 }
